@@ -45,7 +45,7 @@ class Ctx:
         Each call func(arg) returns a dict with optional keys
         evals, viol, stats (dict of counters), samples, states, transitions."""
         argslist = list(argslist)
-        if not argslist:
+        if not argslist or getattr(self, "timed_out", False):
             return []
         envd = {"fw": "none", "nvx": "1", "seed": self.seed, "tier": self.tier}
         envd.update(env)
@@ -58,13 +58,37 @@ class Ctx:
             for a in argslist:
                 results.append(_worker.call(func, a))
         else:
+            # watchdog: a job that does not terminate (e.g. the code under test loops forever)
+            # is reported as a violation of that job instead of hanging the check
+            limit = float(os.environ.get("VERIF_JOB_TIMEOUT") or
+                          (600 if self.tier == "quick" else 3 * 3600))
             mpctx = multiprocessing.get_context("spawn")
-            with ProcessPoolExecutor(nproc, mp_context=mpctx,
-                                     initializer=_worker.init,
-                                     initargs=(envd,)) as ex:
-                for r in ex.map(_worker.call, [func] * len(argslist), argslist,
-                                chunksize=chunksize):
-                    results.append(r)
+            ex = ProcessPoolExecutor(nproc, mp_context=mpctx, initializer=_worker.init,
+                                     initargs=(envd,))
+            futs = [ex.submit(_worker.call, func, a) for a in argslist]
+            import concurrent.futures as _cf
+            done, pending = _cf.wait(futs, timeout=limit)
+            if pending:
+                self.timed_out = True   # later phases are skipped: the verdict is already negative
+                for f, a in zip(futs, argslist):
+                    if f in pending:
+                        results.append({"evals": 0, "viol": [{
+                            "sig": "%s|no-termination|%s" % (self.pid, func.split(":")[1]),
+                            "desc": "job did not terminate within %.0f s (the code under test does not "
+                                    "return / loops): %s %s" % (limit, func, str(a)[:300]),
+                            "replay": {"env": {"fw": envd.get("fw"), "nvx": str(envd.get("nvx"))},
+                                       "func": func, "arg": a, "no_confirm": True}}]})
+                    else:
+                        results.append(f.result())
+                for p_ in list(getattr(ex, "_processes", {}).values()):
+                    try:
+                        p_.kill()
+                    except Exception:
+                        pass
+                ex.shutdown(wait=False, cancel_futures=True)
+            else:
+                results = [f.result() for f in futs]
+                ex.shutdown(wait=True)
         if os.environ.get("VERIF_DEBUG"):
             print("  pmap %s %s: %d jobs, %.1fs since start" % (
                 envd.get("fw"), func, len(argslist), time.time() - self.t0), flush=True)
@@ -192,7 +216,7 @@ def main(argv=None):
         mpctx = multiprocessing.get_context("spawn")
         for sig, vs in new[:6]:
             rp = vs[0].get("replay") or {}
-            if not rp.get("func"):
+            if not rp.get("func") or rp.get("no_confirm"):
                 continue
             envd = {"fw": "none", "nvx": "1", "seed": seed, "tier": args.tier}
             envd.update({k: v for k, v in (rp.get("env") or {}).items() if v is not None})
@@ -265,7 +289,7 @@ def main(argv=None):
         print("CHECK-BROKEN %s: violation(s) did not reproduce when replayed in a fresh process "
               "(nondeterminism not owned by the machinery): %s" % (pid, unconfirmed[:3]))
         return 2
-    if vac:
+    if vac and rc == 0:
         print("CHECK-BROKEN %s: vacuous exploration: %s" % (pid, "; ".join(vac)))
         return 2
     return rc
